@@ -176,9 +176,6 @@ func GenLeaf(rng *rand.Rand, t *ref.Type, o GenOpt) ref.Val {
 		}
 		return ref.Leaf(putLE(uint64(int32(d)), 4))
 	case "DateTime64":
-		if t.HasTZ { // raw column: any int64
-			return ref.Leaf(fixedPattern(rng, 8))
-		}
 		pow := int64(1)
 		for i := 0; i < t.N; i++ {
 			pow *= 10
